@@ -1,5 +1,6 @@
 import Sourcer.Properties
 import Tie.Flags
+import Tie.Excerpt
 /-
   Axiom audit: `#print axioms` for every property theorem and every tie obligation.
   The check parses this output; anything outside {propext, Classical.choice, Quot.sound} fails.
@@ -30,3 +31,6 @@ import Tie.Flags
 #print axioms Sourcer.C07_memo_write_once
 #print axioms Tie.implFlags_sound -- module Tie.Flags
 #print axioms Tie.impl_refines -- module Tie.Flags
+#print axioms Tie.map_index_eq -- module Tie.Excerpt
+#print axioms Tie.linecol_spec -- module Tie.Excerpt
+#print axioms Tie.excerpt_spec -- module Tie.Excerpt
